@@ -259,3 +259,26 @@ Lemma ref_paw_contracts : paw_contracts ref_paw.
 Proof. constructor; cbn; intros; auto. apply time_order_stable. Qed.
 Lemma ref_pdw_contracts : pdw_contracts ref_pdw.
 Proof. constructor; cbn; intros; auto. apply time_order_stable. Qed.
+
+(* corollaries at the level of the specification *)
+Lemma pa_window_partial_l : forall K, paw_contracts K -> forall op w times c, (1 <= w)%nat -> List.length times = List.length c ->
+  op <> WAgg AStd -> op <> WAgg AVar -> pa_window K op w times c = window_spec op w times c.
+Proof. intros. rewrite pa_window_is_window_pa by auto. apply window_pa_same_l; auto. Qed.
+
+Lemma pa_pd_windows_agree_l : forall Ka Kd, paw_contracts Ka -> pdw_contracts Kd -> forall op w times c, (1 <= w)%nat ->
+  List.length times = List.length c -> op <> WAgg AStd -> op <> WAgg AVar ->
+  pa_window Ka op w times c = pd_window Kd op w times c.
+Proof. intros. rewrite pa_window_partial_l, pd_window_is_spec by auto. reflexivity. Qed.
+
+Lemma pa_window_std_refuted_l :
+  nth 0 (pa_window ref_paw (WAgg AVar) 2 [0; 1; 2]%Z [Some 1; Some 2; Some 4]) None = Some 0 /\
+  nth 0 (window_spec (WAgg AVar) 2 [0; 1; 2]%Z [Some 1; Some 2; Some 4]) None = None /\
+  nth 0 (pd_window ref_pdw (WAgg AVar) 2 [0; 1; 2]%Z [Some 1; Some 2; Some 4]) None = None.
+Proof. vm_compute. repeat split. Qed.
+
+Lemma pa_aggregate_partial_l : forall K, paw_contracts K -> forall op c, op <> AStd -> op <> AVar ->
+  pa_aggregate K op c = repeat (agg_spec op c) (List.length c).
+Proof. intros. rewrite pa_aggregate_spec by auto. rewrite agg_pop_same_l by auto. reflexivity. Qed.
+Lemma pd_aggregate_partial_l : forall K, pdw_contracts K -> forall op c, (op <> ASum \/ vals c <> []) ->
+  pd_aggregate K op c = repeat (agg_spec op c) (List.length c).
+Proof. intros. rewrite pd_aggregate_spec by auto. rewrite agg_pd_same_l by auto. reflexivity. Qed.
